@@ -246,19 +246,18 @@ func checkC07(w *World, r *Report) {
 		// the split may be reached through a helper shared by the handlers: arguments in the handler's terms
 		for _, e := range w.effectsBelow(h, func(s *Site) bool { return calleeIs(s, "x/cfevesting/keeper.msgServer.splitVestingCoins") }, 2) {
 			s := e.Site
-			a := e.RootArgs()
+			a := s.Args()
+			ectx := e.Ctx()
 			amt := a[len(a)-1]
-			from := a[1]
-			if isDetached(amt) || isDetached(from) {
-				r.Unk("C07.move", funcName(h)+": amount handed to the split", w.Pos(s.Instr.Pos()), "the amount is computed inside a helper between the handler and the split: not traced")
-				continue
-			}
-			o := tr.Origins(amt)
+			from := ResolveUp(a[1], ectx)
+			o := tr.OriginsVia(e, amt, nil)
 			lcs := o.CallsNamed("BankKeeper.LockedCoins")
 			ok := len(lcs) >= 1
 			for _, lc := range lcs {
+				// the locked coins of the very account handed to the split (both expressed in the terms of the function
+				// that holds the address: a helper or a function literal computing the amount receives it as a parameter)
 				la := lc.Common().Args
-				if la[len(la)-1] != from {
+				if ResolveUp(la[len(la)-1], o.CallCtx[lc]) != from {
 					ok = false
 				}
 			}
@@ -319,7 +318,26 @@ func checkC07(w *World, r *Report) {
 					}
 				}
 			} else {
-				ok = ok && amt == ssa.Value(lcs0(lcs))
+				// the amount IS the locked coins: nothing but that one call (and the nil of an error return) on its slice
+				t2 := *tr
+				t2.Stop = []string{"BankKeeper.LockedCoins"}
+				o2 := t2.OriginsVia(e, amt, nil)
+				exact := len(lcs) == 1 && !o2.Truncated
+				for op := range o2.Ops {
+					if !strings.HasSuffix(op, "BankKeeper.LockedCoins") {
+						exact = false
+					}
+				}
+				for _, l := range o2.Leaves {
+					if l.Kind == "call" && l.V == ssa.Value(lcs[0]) {
+						continue
+					}
+					if k, isK := l.V.(*ssa.Const); isK && l.Kind == "const" && k.Value == nil {
+						continue
+					}
+					exact = false
+				}
+				ok = ok && exact
 			}
 			r.Check(ok, "C07.move", funcName(h)+": amount = LockedCoins(from)"+map[bool]string{true: " restricted to msg.Denoms", false: ""}[strings.HasSuffix(anchor, "ByDenoms")], w.Pos(s.Instr.Pos()),
 				"origins: "+o.String(), "the amount moved is not the sender's locked coins: "+o.String())
